@@ -335,6 +335,8 @@ def gen_spec(r, size="normal"):
             if r.random() < 0.7:
                 sid["obstacle_behavior"] = r.choice(["T", "S", "P", "I"])
                 sid["prediction_id"] = r.choice([1, 2, 7, [1, 2], [3, 1, 4]])
+        if r.random() < 0.25:
+            sid["scenario_version"] = r.choice(["2018b", "2020a"])
         sp["sid"] = sid
     sp["via"] = r.choice(["scenario", "scenario", "writer", "mixed"])
     sp["author"] = r.choice(["A. Author", "", "Jürgen Müller, 李雷", "x" * 40])
@@ -619,146 +621,652 @@ def b_location(loc):
     return Location(**kw)
 
 
+# ---- construction variants (spec["variant"]): HOW the same content is put together --------------------------------------------
+
+VARIANT_KEYS = {
+    "np": "reals as numpy.float64, lanelet ids as numpy.int64 (time steps stay `int`: Trajectory / the writer test isinstance(.., int))",
+    "setters": "objects built with the mandatory constructor arguments only, every optional attribute assigned afterwards through "
+               "its property setter and then re-assigned to itself (same object handed back)",
+    "inplace": "lists completed IN PLACE after construction (append / add_predecessor / add_traffic_sign_to_lanelet / "
+               "append_state / add_planning_problem ...)",
+    "reid": "ids re-assigned (to the same value and to a fresh one) after the containers were assembled",
+    "entry": "each | list | network | network-list: add_objects per object / add_objects([list]) / LaneletNetwork assembled "
+             "first and handed over (add_objects(network) / create_from_lanelet_list + replace_lanelet_network)",
+    "sign_refs": "ctor | add: lanelet -> sign/light references given to the Lanelet constructor or by add_traffic_sign/light(.., ids)",
+    "pps": "ctor | add: PlanningProblemSet(list) or add_planning_problem one by one",
+    "update_ops": "dynamic obstacles brought to their final content by update_initial_state / update_prediction",
+    "extras": "constructor arguments the format has NO field for are given non-default values (lanelet assignments, history, "
+              "external_dataset_id, light colour list / shape, cycle.active, adjacent_areas): they must not disturb the rest",
+    "shuffle": "predecessor / successor / occupancy / signal-series / goal-lanelet lists in shuffled, non-monotone order",
+}
+
+
+def gen_variant(r):
+    v = {}
+    if r.random() < 0.25:
+        v["np"] = True
+    if r.random() < 0.3:
+        v["setters"] = True
+    if r.random() < 0.3:
+        v["inplace"] = True
+    if r.random() < 0.15:
+        v["reid"] = r.randint(1, 10 ** 6)
+    v["entry"] = r.choice(["each", "each", "list", "network", "network-list"])
+    v["sign_refs"] = r.choice(["ctor", "add"])
+    v["pps"] = r.choice(["ctor", "add"])
+    if r.random() < 0.2:
+        v["update_ops"] = True
+    if r.random() < 0.3:
+        v["extras"] = True
+    if r.random() < 0.3:
+        v["shuffle"] = r.randint(1, 10 ** 6)
+    return v
+
+
 def build(sp):
-    """spec -> (scenario, planning_problem_set, writer_kwargs).  Everything goes through public constructors; a `null` in the
-    spec leaves the constructor argument at its default."""
+    """spec -> (scenario, planning_problem_set, writer_kwargs).  Everything goes through public constructors / setters / public
+    operations; a `null` in the spec leaves the constructor argument at its default.  spec["variant"] chooses the route."""
+    import random
     import numpy as np
     import commonroad.scenario.traffic_sign as ts
     from commonroad.common.common_lanelet import LaneletType, LineMarking, RoadUser, StopLine
+    from commonroad.common.util import AngleInterval, Interval, Time
+    from commonroad.geometry.shape import Circle, Polygon, Rectangle, ShapeGroup
     from commonroad.planning.goal import GoalRegion
     from commonroad.planning.planning_problem import PlanningProblem, PlanningProblemSet
-    from commonroad.prediction.prediction import TrajectoryPrediction
+    from commonroad.prediction.prediction import Occupancy, SetBasedPrediction, TrajectoryPrediction
     from commonroad.scenario.intersection import Intersection, IntersectionIncomingElement
-    from commonroad.scenario.lanelet import Lanelet
+    from commonroad.scenario.lanelet import Lanelet, LaneletNetwork
     from commonroad.scenario.obstacle import (DynamicObstacle, EnvironmentObstacle, ObstacleType, PhantomObstacle,
                                               StaticObstacle)
-    from commonroad.scenario.scenario import Scenario, ScenarioID, Tag
+    from commonroad.scenario.scenario import (Environment, GeoTransformation, Location, Scenario, ScenarioID, Tag, TimeOfDay,
+                                              Underground, Weather)
+    from commonroad.scenario.state import SignalState
+    import commonroad.scenario.state as ST
     from commonroad.scenario.traffic_light import (TrafficLight, TrafficLightCycle, TrafficLightCycleElement,
                                                    TrafficLightDirection, TrafficLightState)
     from commonroad.scenario.trajectory import Trajectory
 
+    V = sp.get("variant") or {}
+    use_np, setters, inplace, extras = bool(V.get("np")), bool(V.get("setters")), bool(V.get("inplace")), bool(V.get("extras"))
+    sh_rng = random.Random(V["shuffle"]) if V.get("shuffle") else None
+
+    def again(o, *attrs):
+        """hand every attribute back to its own setter (the SAME object)"""
+        if setters:
+            for a_ in attrs:
+                setattr(o, a_, getattr(o, a_))
+        return o
+
+    def R(v):                                     # a real
+        if use_np and isinstance(v, float):
+            return np.float64(v)
+        return v
+
+    def I(v):                                     # an integer where numpy integers are accepted
+        return np.int64(v) if use_np else v
+
+    def arr(p):
+        return np.array([R(p[0]), R(p[1])])
+
+    def shuffled(l):
+        l = list(l)
+        if sh_rng is not None:
+            sh_rng.shuffle(l)
+        return l
+
+    def shape(s):
+        k = s["k"]
+        if k == "rect":
+            if setters:
+                o = Rectangle(R(s["l"]), R(s["w"]))
+                if s.get("c") is not None:
+                    o.center = arr(s["c"])
+                if s.get("o") is not None:
+                    o.orientation = R(s["o"])
+                o.length, o.width = R(s["l"]), R(s["w"])
+                return again(o, "center", "orientation", "length", "width")
+            kw = {}
+            if s.get("c") is not None:
+                kw["center"] = arr(s["c"])
+            if s.get("o") is not None:
+                kw["orientation"] = R(s["o"])
+            return Rectangle(R(s["l"]), R(s["w"]), **kw)
+        if k == "circ":
+            if setters:
+                o = Circle(R(s["r"]))
+                if s.get("c") is not None:
+                    o.center = arr(s["c"])
+                return again(o, "center", "radius")
+            return Circle(R(s["r"]), arr(s["c"])) if s.get("c") is not None else Circle(R(s["r"]))
+        if k == "poly":
+            return Polygon(np.array(s["v"], dtype=float))
+        subs = [shape(x) for x in s["s"]]
+        if inplace and subs:
+            g = ShapeGroup(subs[:-1])
+            g.shapes.append(subs[-1])
+            return g
+        return ShapeGroup(subs)
+
+    def int_eoi(t):
+        return Interval(t[0], t[1]) if isinstance(t, list) else t   # numpy integers are not `int`: Trajectory asserts against them
+
+    def feoi(v, attr):
+        if isinstance(v, list):
+            return AngleInterval(R(v[0]), R(v[1])) if attr == "orientation" else Interval(R(v[0]), R(v[1]))
+        return R(v)
+
+    def state(st):
+        kw = {"time_step": int_eoi(st["t"])}
+        if st.get("pos") is not None:
+            kw["position"] = arr(st["pos"]) if isinstance(st["pos"], list) else shape(st["pos"])
+        for a_, v in st["a"].items():
+            kw[a_] = feoi(v, a_)
+        cls = getattr(ST, st["cls"])
+        if setters and st["cls"] != "CustomState":
+            o = cls(time_step=kw["time_step"])          # dataclass: plain attribute assignment afterwards
+            for a_, v in kw.items():
+                setattr(o, a_, v)
+            return o
+        if setters:
+            o = cls(time_step=kw["time_step"])
+            for a_, v in kw.items():
+                if a_ != "time_step":
+                    o.add_attribute(a_)
+                    o.set_value(a_, v)
+            return o
+        return cls(**kw)
+
+    def signal(s_):
+        kw = dict(s_)
+        if "time_step" in kw:
+            kw["time_step"] = int_eoi(kw["time_step"])
+        if setters:
+            o = SignalState()
+            for a_, v in kw.items():
+                setattr(o, a_, v)
+            return o
+        return SignalState(**kw)
+
+    def set_pred(p):
+        occ = [Occupancy(int_eoi(o["t"]), shape(o["shape"])) for o in shuffled(p["occ"])]
+        if setters:
+            for o_ in occ:
+                again(o_, "shape", "time_step")
+            sp_ = SetBasedPrediction(p["t0"], [])
+            sp_.occupancy_set = occ
+            return again(sp_, "occupancy_set")
+        if inplace and occ:
+            sp_ = SetBasedPrediction(p["t0"], occ[:-1])
+            sp_.occupancy_set.append(occ[-1])
+            return sp_
+        return SetBasedPrediction(p["t0"], occ)
+
+    def traj_pred(p):
+        states = [state(s_) for s_ in p["states"]]
+        if inplace and len(states) > 1:
+            tr = Trajectory(p["t0"], states[:-1])
+            tr.append_state(states[-1])
+        else:
+            tr = Trajectory(p["t0"], states)
+        kw = {}
+        if extras:
+            ts_ = [s_["t"] for s_ in p["states"] if isinstance(s_["t"], int)]
+            kw = {"center_lanelet_assignment": {t: set() for t in ts_}, "shape_lanelet_assignment": {t: set() for t in ts_}}
+        tp = TrajectoryPrediction(tr, shape(p["shape"]), **kw)
+        return again(tp, "shape", "trajectory")
+
+    def prediction(p):
+        return traj_pred(p) if p["kind"] == "traj" else set_pred(p)
+
+    def location(loc):
+        if loc is None:
+            return None
+        geo = env = None
+        if loc.get("geo") is not None:
+            g = loc["geo"]
+            if setters:
+                geo = GeoTransformation(g["ref"])
+                if g.get("x") is not None:
+                    geo.x_translation, geo.y_translation, geo.z_rotation, geo.scaling = R(g["x"]), R(g["y"]), R(g["rot"]), R(g["scaling"])
+                again(geo, "geo_reference", "x_translation", "y_translation", "z_rotation", "scaling")
+            else:
+                gk = {"geo_reference": g["ref"]}
+                if g.get("x") is not None:
+                    gk.update(x_translation=R(g["x"]), y_translation=R(g["y"]), z_rotation=R(g["rot"]), scaling=R(g["scaling"]))
+                geo = GeoTransformation(**gk)
+        if loc.get("env") is not None:
+            e = loc["env"]
+            ek = {}
+            if e.get("time") is not None:
+                t = e["time"]
+                if setters:
+                    tm = Time(0, 0)
+                    tm.hours, tm.minutes = t["h"], t["m"]
+                    if t.get("day") is not None:
+                        tm.day, tm.month, tm.year = t["day"], t["month"], t["year"]
+                    ek["time"] = again(tm, "hours", "minutes", "day", "month", "year")
+                else:
+                    tk = {"day": t["day"], "month": t["month"], "year": t["year"]} if t.get("day") is not None else {}
+                    ek["time"] = Time(t["h"], t["m"], **tk)
+            if e.get("time_of_day") is not None:
+                ek["time_of_day"] = TimeOfDay[e["time_of_day"]]
+            if e.get("weather") is not None:
+                ek["weather"] = Weather[e["weather"]]
+            if e.get("underground") is not None:
+                ek["underground"] = Underground[e["underground"]]
+            if setters:
+                env = Environment()
+                for a_, v in ek.items():
+                    setattr(env, a_, v)
+                again(env, "time", "time_of_day", "weather", "underground")
+            else:
+                env = Environment(**ek)
+        if setters:
+            lo = Location()
+            if loc.get("geo_name_id") is not None:
+                lo.geo_name_id, lo.gps_latitude, lo.gps_longitude = loc["geo_name_id"], R(loc["lat"]), R(loc["lon"])
+            if geo is not None:
+                lo.geo_transformation = geo
+            if env is not None:
+                lo.environment = env
+            return again(lo, "geo_name_id", "gps_latitude", "gps_longitude", "geo_transformation", "environment")
+        kw = {}
+        if loc.get("geo_name_id") is not None:
+            kw.update(geo_name_id=loc["geo_name_id"], gps_latitude=R(loc["lat"]), gps_longitude=R(loc["lon"]))
+        if geo is not None:
+            kw["geo_transformation"] = geo
+        if env is not None:
+            kw["environment"] = env
+        return Location(**kw)
+
+    # ---- header
     via = sp.get("via", "scenario")
     tags = {Tag[t] for t in sp["tags"]}
-    location = b_location(sp.get("location"))
+    loc = location(sp.get("location"))
     skw, wkw = {}, {}
     if sp.get("sid") is not None:
         skw["scenario_id"] = ScenarioID(**sp["sid"])
     if via == "scenario":
         skw.update(author=sp["author"], affiliation=sp["affiliation"], source=sp["source"], tags=tags)
-        if location is not None:
-            skw["location"] = location
+        if loc is not None:
+            skw["location"] = loc
     elif via == "writer":
         wkw.update(author=sp["author"], affiliation=sp["affiliation"], source=sp["source"], tags=tags)
-        if location is not None:
-            wkw["location"] = location
+        if loc is not None:
+            wkw["location"] = loc
     else:  # mixed: text fields on the writer, tags/location on the scenario
         wkw.update(author=sp["author"], affiliation=sp["affiliation"], source=sp["source"])
         skw.update(tags=tags)
-        if location is not None:
-            skw["location"] = location
-    sc = Scenario(sp["dt"], **skw)
+        if loc is not None:
+            skw["location"] = loc
+    if setters:                                      # plain attributes of Scenario, assigned after construction
+        sc = Scenario(1.0)
+        sc.dt = R(sp["dt"])
+        for a_, v in skw.items():
+            setattr(sc, a_, v)
+    else:
+        sc = Scenario(R(sp["dt"]), **skw)
 
+    sign_refs_add = V.get("sign_refs") == "add"
+    pending_refs = {}                                # sign / light id -> lanelet ids that reference it (given by add_traffic_*)
+    lanelets = []
     for ll in sp["lanelets"]:
-        kw = {}
-        for k_spec, k_arg in [("pred", "predecessor"), ("succ", "successor"), ("adj_left", "adjacent_left"),
-                              ("adj_left_same", "adjacent_left_same_direction"), ("adj_right", "adjacent_right"),
-                              ("adj_right_same", "adjacent_right_same_direction")]:
-            if ll.get(k_spec) is not None:
-                kw[k_arg] = ll[k_spec]
+        left, center, right = (np.array(ll[k], dtype=float) for k in ("left", "center", "right"))
+        vals = {}
+        if ll.get("pred") is not None:
+            vals["predecessor"] = shuffled(ll["pred"])
+        if ll.get("succ") is not None:
+            vals["successor"] = shuffled(ll["succ"])
+        if ll.get("adj_left") is not None:
+            vals["adj_left"], vals["adj_left_same_direction"] = ll["adj_left"], ll["adj_left_same"]
+        if ll.get("adj_right") is not None:
+            vals["adj_right"], vals["adj_right_same_direction"] = ll["adj_right"], ll["adj_right_same"]
         if ll.get("lm_left") is not None:
-            kw["line_marking_left_vertices"] = LineMarking[ll["lm_left"]]
+            vals["line_marking_left_vertices"] = LineMarking[ll["lm_left"]]
         if ll.get("lm_right") is not None:
-            kw["line_marking_right_vertices"] = LineMarking[ll["lm_right"]]
+            vals["line_marking_right_vertices"] = LineMarking[ll["lm_right"]]
         if ll.get("stop") is not None:
-            s = ll["stop"]
-            sk = {}
-            if s.get("signs") is not None:
-                sk["traffic_sign_ref"] = set(s["signs"])
-            if s.get("lights") is not None:
-                sk["traffic_light_ref"] = set(s["lights"])
-            kw["stop_line"] = StopLine(_arr(s["start"]), _arr(s["end"]), LineMarking[s["lm"]], **sk)
+            s_ = ll["stop"]
+            if setters:
+                sl = StopLine(arr(s_["start"]), arr(s_["end"]), LineMarking.UNKNOWN)
+                sl.line_marking = LineMarking[s_["lm"]]
+                if s_.get("signs") is not None:
+                    sl.traffic_sign_ref = set(s_["signs"])
+                if s_.get("lights") is not None:
+                    sl.traffic_light_ref = set(s_["lights"])
+                again(sl, "start", "end", "line_marking", "traffic_sign_ref", "traffic_light_ref")
+            else:
+                sk = {}
+                if s_.get("signs") is not None:
+                    sk["traffic_sign_ref"] = set(s_["signs"])
+                if s_.get("lights") is not None:
+                    sk["traffic_light_ref"] = set(s_["lights"])
+                sl = StopLine(arr(s_["start"]), arr(s_["end"]), LineMarking[s_["lm"]], **sk)
+            vals["stop_line"] = sl
         if ll.get("types") is not None:
-            kw["lanelet_type"] = {LaneletType[t] for t in ll["types"]}
+            vals["lanelet_type"] = {LaneletType[t] for t in ll["types"]}
         if ll.get("one_way") is not None:
-            kw["user_one_way"] = {RoadUser[t] for t in ll["one_way"]}
+            vals["user_one_way"] = {RoadUser[t] for t in ll["one_way"]}
         if ll.get("bidir") is not None:
-            kw["user_bidirectional"] = {RoadUser[t] for t in ll["bidir"]}
-        if ll.get("signs") is not None:
-            kw["traffic_signs"] = set(ll["signs"])
-        if ll.get("lights") is not None:
-            kw["traffic_lights"] = set(ll["lights"])
-        sc.add_objects(Lanelet(np.array(ll["left"], dtype=float), np.array(ll["center"], dtype=float),
-                               np.array(ll["right"], dtype=float), ll["id"], **kw))
-    for s in sp["signs"]:
+            vals["user_bidirectional"] = {RoadUser[t] for t in ll["bidir"]}
+        signs_, lights_ = ll.get("signs"), ll.get("lights")
+        if sign_refs_add:
+            for sid_ in signs_ or []:
+                pending_refs.setdefault(sid_, set()).add(ll["id"])
+            for tid in lights_ or []:
+                pending_refs.setdefault(tid, set()).add(ll["id"])
+            signs_ = None if not signs_ else []
+            lights_ = None if not lights_ else []
+        if signs_ is not None:
+            vals["traffic_signs"] = set(signs_)
+        if lights_ is not None:
+            vals["traffic_lights"] = set(lights_)
+        late = {}
+        if inplace:                                  # the last predecessor / successor / sign reference is added IN PLACE later
+            for k_ in ("predecessor", "successor"):
+                if vals.get(k_):
+                    late[k_] = vals[k_][-1]
+                    vals[k_] = vals[k_][:-1]
+            if vals.get("traffic_signs"):
+                late["sign"] = max(vals["traffic_signs"])
+                vals["traffic_signs"] = vals["traffic_signs"] - {late["sign"]}
+        ctor_names = {"predecessor": "predecessor", "successor": "successor", "adj_left": "adjacent_left",
+                      "adj_left_same_direction": "adjacent_left_same_direction", "adj_right": "adjacent_right",
+                      "adj_right_same_direction": "adjacent_right_same_direction",
+                      "line_marking_left_vertices": "line_marking_left_vertices",
+                      "line_marking_right_vertices": "line_marking_right_vertices", "stop_line": "stop_line",
+                      "lanelet_type": "lanelet_type", "user_one_way": "user_one_way", "user_bidirectional": "user_bidirectional",
+                      "traffic_signs": "traffic_signs", "traffic_lights": "traffic_lights"}
+        if setters:
+            l = Lanelet(left, center, right, I(ll["id"]))
+            for a_, v in vals.items():
+                setattr(l, a_, v)
+            l.left_vertices, l.right_vertices, l.center_vertices = left, right, center
+            again(l, *vals.keys())
+        else:
+            kw = {ctor_names[a_]: v for a_, v in vals.items()}
+            if extras:
+                kw["adjacent_areas"] = {7000001}
+            l = Lanelet(left, center, right, I(ll["id"]), **kw)
+        if "predecessor" in late:
+            l.add_predecessor(late["predecessor"])
+        if "successor" in late:
+            l.successor.append(late["successor"])
+        if "sign" in late:
+            l.add_traffic_sign_to_lanelet(late["sign"])
+        lanelets.append(l)
+
+    signs = []
+    for s_ in sp["signs"]:
         els = []
-        for e in s["elements"]:
+        for e in s_["elements"]:
             eid = getattr(ts, e["country"])[e["name"]]
-            els.append(ts.TrafficSignElement(eid, list(e["values"])) if e.get("values") is not None
-                       else ts.TrafficSignElement(eid))
-        kw = {}
-        if s.get("virtual") is not None:
-            kw["virtual"] = s["virtual"]
-        sc.add_objects(ts.TrafficSign(s["id"], els, set(s["first"]), _arr(s["pos"]), **kw), set())
+            if setters:
+                el = ts.TrafficSignElement(eid)
+                if e.get("values") is not None:
+                    el.additional_values = list(e["values"])
+                els.append(again(el, "traffic_sign_element_id", "additional_values"))
+            elif inplace and e.get("values"):
+                el = ts.TrafficSignElement(eid, list(e["values"][:-1]))
+                el.additional_values.append(e["values"][-1])
+                els.append(el)
+            else:
+                els.append(ts.TrafficSignElement(eid, list(e["values"])) if e.get("values") is not None
+                           else ts.TrafficSignElement(eid))
+        if setters:
+            sg = ts.TrafficSign(s_["id"], [], None, np.array([0.0, 0.0]))
+            sg.traffic_sign_elements, sg.first_occurrence, sg.position = els, set(s_["first"]), arr(s_["pos"])
+            if s_.get("virtual") is not None:
+                sg.virtual = s_["virtual"]
+            again(sg, "traffic_sign_elements", "first_occurrence", "position", "virtual", "traffic_sign_id")
+        else:
+            kw = {"virtual": s_["virtual"]} if s_.get("virtual") is not None else {}
+            if inplace and len(els) > 1:
+                sg = ts.TrafficSign(s_["id"], els[:-1], set(s_["first"]), arr(s_["pos"]), **kw)
+                sg.traffic_sign_elements.append(els[-1])
+            else:
+                sg = ts.TrafficSign(s_["id"], els, set(s_["first"]), arr(s_["pos"]), **kw)
+        signs.append(sg)
+
+    lights = []
     for t in sp["lights"]:
-        ck = {}
-        if t.get("offset") is not None:
-            ck["time_offset"] = t["offset"]
-        cyc = TrafficLightCycle([TrafficLightCycleElement(TrafficLightState[c], d) for c, d in t["cycle"]], **ck)
-        kw = {}
-        if t.get("active") is not None:
-            kw["active"] = t["active"]
-        if t.get("direction") is not None:
-            kw["direction"] = TrafficLightDirection[t["direction"]]
-        sc.add_objects(TrafficLight(t["id"], _arr(t["pos"]), cyc, **kw), set())
+        els = [TrafficLightCycleElement(TrafficLightState[c], d) for c, d in t["cycle"]]
+        if setters:
+            for e_, (c, d) in zip(els, t["cycle"]):
+                e_.state, e_.duration = TrafficLightState[c], d
+            cyc = TrafficLightCycle()
+            cyc.cycle_elements = els
+            if t.get("offset") is not None:
+                cyc.time_offset = t["offset"]
+            again(cyc, "cycle_elements", "time_offset")
+            tl = TrafficLight(t["id"], np.array([0.0, 0.0]))
+            tl.traffic_light_cycle, tl.position = cyc, arr(t["pos"])
+            # TrafficLight(id, position) has no cycle and therefore active=False: the constructor default for a light WITH a
+            # cycle is True, which is what the spec's `null` means
+            tl.active = True if t.get("active") is None else t["active"]
+            if t.get("direction") is not None:
+                tl.direction = TrafficLightDirection[t["direction"]]
+            again(tl, "traffic_light_cycle", "position", "active", "direction", "traffic_light_id")
+        else:
+            ck = {"time_offset": t["offset"]} if t.get("offset") is not None else {}
+            if extras:
+                ck["active"] = False
+            if inplace and len(els) > 1:
+                cyc = TrafficLightCycle(els[:-1], **ck)
+                cyc.cycle_elements.append(els[-1])
+            else:
+                cyc = TrafficLightCycle(els, **ck)
+            kw = {}
+            if t.get("active") is not None:
+                kw["active"] = t["active"]
+            if t.get("direction") is not None:
+                kw["direction"] = TrafficLightDirection[t["direction"]]
+            if extras:
+                kw["color"] = [TrafficLightState.RED, TrafficLightState.GREEN]
+                kw["shape"] = Rectangle(0.5, 1.5)
+            tl = TrafficLight(t["id"], arr(t["pos"]), cyc, **kw)
+        lights.append(tl)
+
+    inters = []
     for it in sp["intersections"]:
         incs = []
         for inc in it["incomings"]:
-            kw = {}
+            vals = {}
             for k_spec, k_arg in [("lanelets", "incoming_lanelets"), ("right", "successors_right"),
                                   ("straight", "successors_straight"), ("left", "successors_left")]:
                 if inc.get(k_spec) is not None:
-                    kw[k_arg] = set(inc[k_spec])
+                    vals[k_arg] = set(inc[k_spec])
             if inc.get("left_of") is not None:
-                kw["left_of"] = inc["left_of"]
-            incs.append(IntersectionIncomingElement(inc["id"], **kw))
-        kw = {}
-        if it.get("crossings") is not None:
-            kw["crossings"] = set(it["crossings"])
-        sc.add_objects(Intersection(it["id"], incs, **kw))
-
-    def sigkw(o):
-        kw = {}
-        if o.get("sig0") is not None:
-            kw["initial_signal_state"] = b_signal(o["sig0"])
-        if o.get("series") is not None:
-            kw["signal_series"] = [b_signal(x) for x in o["series"]]
-        return kw
-
-    for o in sp["static"]:
-        sc.add_objects(StaticObstacle(o["id"], ObstacleType[o["type"]], b_shape(o["shape"]), b_state(o["init"]), **sigkw(o)))
-    for o in sp["dynamic"]:
-        kw = sigkw(o)
-        p = o.get("pred")
-        if p is not None:
-            if p["kind"] == "traj":
-                kw["prediction"] = TrajectoryPrediction(Trajectory(p["t0"], [b_state(s) for s in p["states"]]),
-                                                        b_shape(p["shape"]))
+                vals["left_of"] = inc["left_of"]
+            if setters:
+                io = IntersectionIncomingElement(inc["id"], vals.pop("incoming_lanelets", set()))
+                for a_, v in vals.items():
+                    setattr(io, a_, v)
+                again(io, "incoming_lanelets", "successors_right", "successors_straight", "successors_left", "left_of", "incoming_id")
             else:
-                kw["prediction"] = b_set_pred(p)
-        sc.add_objects(DynamicObstacle(o["id"], ObstacleType[o["type"]], b_shape(o["shape"]), b_state(o["init"]), **kw))
-    for o in sp["env"]:
-        sc.add_objects(EnvironmentObstacle(o["id"], ObstacleType[o["type"]], b_shape(o["shape"])))
-    for o in sp["phantom"]:
-        sc.add_objects(PhantomObstacle(o["id"], b_set_pred(o["pred"])) if o.get("pred") is not None
-                       else PhantomObstacle(o["id"]))
+                io = IntersectionIncomingElement(inc["id"], **vals)
+                if inplace and vals.get("successors_left"):
+                    io.successors_left.add(max(vals["successors_left"]))
+            incs.append(io)
+        if setters:
+            x_ = Intersection(it["id"], [])
+            x_.incomings = incs
+            if it.get("crossings") is not None:
+                x_.crossings = set(it["crossings"])
+            again(x_, "incomings", "crossings", "intersection_id")
+        else:
+            kw = {"crossings": set(it["crossings"])} if it.get("crossings") is not None else {}
+            if inplace and len(incs) > 1:
+                x_ = Intersection(it["id"], incs[:-1], **kw)
+                x_.incomings.append(incs[-1])
+            else:
+                x_ = Intersection(it["id"], incs, **kw)
+        inters.append(x_)
 
+    # ---- obstacles
+    lids = [ll["id"] for ll in sp["lanelets"]]
+
+    def sig_vals(o):
+        vals = {}
+        if o.get("sig0") is not None:
+            vals["initial_signal_state"] = signal(o["sig0"])
+        if o.get("series") is not None:
+            vals["signal_series"] = [signal(x) for x in shuffled(o["series"])]
+        return vals
+
+    def extra_kw():
+        return {"initial_center_lanelet_ids": set(lids[:1]), "initial_shape_lanelet_ids": set(lids[:2])} if extras else {}
+
+    obstacles = []
+    for o in sp["static"]:
+        vals = sig_vals(o)
+        if setters:
+            # obstacle_id / obstacle_type / obstacle_shape are write-once (their setters warn and keep the first value)
+            ob = StaticObstacle(o["id"], ObstacleType[o["type"]], shape(o["shape"]), state(o["init"]), **extra_kw())
+            for a_, v in vals.items():
+                setattr(ob, a_, v)
+            again(ob, "obstacle_type", "obstacle_shape", "initial_state", "initial_signal_state", "signal_series", "obstacle_id")
+        else:
+            late = None
+            if inplace and vals.get("signal_series"):
+                late = vals["signal_series"][-1]
+                vals["signal_series"] = vals["signal_series"][:-1]
+            ob = StaticObstacle(o["id"], ObstacleType[o["type"]], shape(o["shape"]), state(o["init"]), **vals, **extra_kw())
+            if late is not None:
+                ob.signal_series.append(late)
+        obstacles.append(ob)
+    for o in sp["dynamic"]:
+        vals = sig_vals(o)
+        pred = prediction(o["pred"]) if o.get("pred") is not None else None
+        ekw = extra_kw()
+        if extras:
+            ekw.update(external_dataset_id=4711, history=[state(o["init"])], signal_history=[None])
+        if V.get("update_ops"):
+            # an obstacle that lived one step before: the content of the spec is reached by the public update operations
+            first = ST.InitialState(time_step=0, position=np.array([0.0, 0.0]), orientation=0.0, velocity=0.0)
+            ob = DynamicObstacle(o["id"], ObstacleType[o["type"]], shape(o["shape"]), first,
+                                 SetBasedPrediction(1, []), initial_signal_state=SignalState(time_step=0, horn=True),
+                                 signal_series=[SignalState(time_step=1, horn=False)], **ekw)
+            ob.update_initial_state(state(o["init"]), vals.get("initial_signal_state"))
+            if pred is not None or "signal_series" in vals:
+                ob.update_prediction(pred, vals.get("signal_series"))
+        elif setters:
+            ob = DynamicObstacle(o["id"], ObstacleType[o["type"]], shape(o["shape"]), state(o["init"]), **ekw)
+            if pred is not None:
+                ob.prediction = pred
+            for a_, v in vals.items():
+                setattr(ob, a_, v)
+            again(ob, "obstacle_type", "obstacle_shape", "initial_state", "prediction", "initial_signal_state", "signal_series",
+                  "obstacle_id")
+        else:
+            kw = dict(vals)
+            if pred is not None:
+                kw["prediction"] = pred
+            ob = DynamicObstacle(o["id"], ObstacleType[o["type"]], shape(o["shape"]), state(o["init"]), **kw, **ekw)
+        obstacles.append(ob)
+    for o in sp["env"]:
+        ob = EnvironmentObstacle(o["id"], ObstacleType[o["type"]], shape(o["shape"]))
+        obstacles.append(again(ob, "obstacle_type", "obstacle_shape", "obstacle_id"))
+    for o in sp["phantom"]:
+        if setters:
+            ob = PhantomObstacle(o["id"])
+            if o.get("pred") is not None:
+                ob.prediction = set_pred(o["pred"])
+            again(ob, "prediction")
+        else:
+            ob = PhantomObstacle(o["id"], set_pred(o["pred"])) if o.get("pred") is not None else PhantomObstacle(o["id"])
+        obstacles.append(ob)
+
+    # ---- assembly: alternative public entry points
+    entry = V.get("entry", "each")
+
+    def refs(obj_id):
+        return set(pending_refs.get(obj_id, set()))
+
+    if entry in ("network", "network-list"):
+        if entry == "network-list":
+            ln = LaneletNetwork.create_from_lanelet_list(lanelets)
+        else:
+            ln = LaneletNetwork()
+            for l in lanelets:
+                ln.add_lanelet(l)
+        for sg in signs:
+            ln.add_traffic_sign(sg, refs(sg.traffic_sign_id))
+        for tl in lights:
+            ln.add_traffic_light(tl, refs(tl.traffic_light_id))
+        for x_ in inters:
+            ln.add_intersection(x_)
+        if entry == "network":
+            sc.add_objects(ln)
+        else:
+            sc.replace_lanelet_network(ln)
+        sc.add_objects(obstacles)
+    elif entry == "list":
+        sc.add_objects(lanelets)
+        for sg in signs:
+            sc.add_objects(sg, refs(sg.traffic_sign_id))
+        for tl in lights:
+            sc.add_objects(tl, refs(tl.traffic_light_id))
+        sc.add_objects(inters)
+        sc.add_objects(obstacles)
+    else:
+        for l in lanelets:
+            sc.add_objects(l)
+        for sg in signs:
+            sc.add_objects(sg, refs(sg.traffic_sign_id))
+        for tl in lights:
+            sc.add_objects(tl, refs(tl.traffic_light_id))
+        for x_ in inters:
+            sc.add_objects(x_)
+        for ob in obstacles:
+            sc.add_objects(ob)
+
+    # ---- planning problems
     plist = []
     for p in sp["pps"]:
         gl = p.get("goal_lanelets")
-        if gl is not None:
-            goal = GoalRegion([b_state(s) for s in p["goals"]], {int(k): list(v) for k, v in gl.items()})
+        goals = [state(s_) for s_ in p["goals"]]
+        gkw = ({int(k): shuffled(v) for k, v in gl.items()},) if gl is not None else ()
+        if setters:
+            goal = GoalRegion([], *gkw)
+            goal.state_list = goals
+            again(goal, "state_list")
+            pp = PlanningProblem(p["id"], state(p["init"]), GoalRegion([ST.CustomState(time_step=Interval(0, 1))]))
+            pp.goal = goal
+            again(pp, "initial_state", "goal")
         else:
-            goal = GoalRegion([b_state(s) for s in p["goals"]])
-        plist.append(PlanningProblem(p["id"], b_state(p["init"]), goal))
-    pps = PlanningProblemSet(plist) if plist or sp.get("pps_list", True) else PlanningProblemSet()
+            if inplace and len(goals) > 1:
+                goal = GoalRegion(goals[:-1], *gkw)
+                goal.state_list.append(goals[-1])
+            else:
+                goal = GoalRegion(goals, *gkw)
+            pp = PlanningProblem(p["id"], state(p["init"]), goal)
+        plist.append(pp)
+    if V.get("pps") == "add":
+        pps = PlanningProblemSet()
+        for pp in plist:
+            pps.add_planning_problem(pp)
+    else:
+        pps = PlanningProblemSet(plist)
+
+    # ---- ids handed to their setters again AFTER the containers were assembled
+    if V.get("reid"):
+        rr = random.Random(V["reid"])
+        for l in sc.lanelet_network.lanelets:
+            l.lanelet_id = l.lanelet_id
+        for sg in sc.lanelet_network.traffic_signs:
+            sg.traffic_sign_id = sg.traffic_sign_id
+        for tl in sc.lanelet_network.traffic_lights:
+            tl.traffic_light_id = tl.traffic_light_id
+        for x_ in sc.lanelet_network.intersections:
+            x_.intersection_id = x_.intersection_id
+            for io in x_.incomings:
+                io.incoming_id = io.incoming_id
+        for ob in list(sc.static_obstacles) + list(sc.dynamic_obstacles) + list(sc.environment_obstacle):
+            ob.obstacle_id = ob.obstacle_id
+        # ... and one obstacle gets a fresh id (the writer has to take the id from the object, not from the container key)
+        cands = list(sc.static_obstacles) + list(sc.dynamic_obstacles) + list(sc.environment_obstacle)
+        if cands:
+            rr.choice(cands).obstacle_id = 3 * 10 ** 6 + rr.randint(0, 10 ** 5)
     return sc, pps, wkw
